@@ -37,6 +37,36 @@ RACE_OPS_FULL = ["PutVersioning", "PutObject", "PutObjectCond", "DeleteObject", 
                  "ListObjects"]
 READ_OPS = ["GetObject", "HeadObject", "GetObjectTagging", "ListParts", "ListObjects", "ListObjectVersions", "HeadBucket",
             "GetVersioning", "ListMultipartUploads", "GetWebsite", "GetCORS", "GetLifecycle", "GetNotification", "ListBuckets"]
+OPAQUE_OPS = ["DeleteWebsite", "DeleteCORS", "DeleteLifecycle"]     # wait like the getters, answer not modelled
+SYNC_OPS = ["CompleteUpload", "CompleteUploadCond", "AbortUpload", "UploadPart", "CreateUpload", "PutTagging", "Transition",
+            "AppendObject", "PutObjectCond", "DeleteObjectCond"]
+# write-through calls that must have been started on the real code while a put/delete of the same key was queued
+SYNC_KEYS = ["CompleteUpload:none", "CompleteUpload:inm", "CompleteUpload:ifm", "AbortUpload:none", "UploadPart:none",
+             "CreateUpload:none", "PutTagging:none", "Transition:none", "AppendObject:none", "PutObject:inm", "PutObject:ifm",
+             "DeleteObject:ifm"]
+
+
+def call_key(call):
+    return "%s:%s" % (call["op"], call.get("cond", "none"))
+
+
+def started_with_pending(p, want):
+    """the call kinds (by want(call) -> key or None) whose drain snapshot a schedule takes while an entry is queued"""
+    pend, cur, hits = 0, {}, set()
+    for x in p["steps"]:
+        if x["a"] == "Invoke":
+            cur[x["p"]] = x["call"]
+        elif x["a"] == "Enqueue":
+            pend += 1
+        elif x["a"] == "Finalize":
+            pend -= 1
+        elif x["a"] == "DrainStart" and pend > 0 and x["p"] in cur:
+            k = want(cur[x["p"]])
+            if k:
+                hits.add(k)
+    return hits
+
+
 BATCH = 150      # schedules per driver process (the driver runs with the collector off, see its main.go)
 
 
@@ -116,7 +146,7 @@ def run(ctx):
     # (the design-level model checks do not depend on the code under test; VERIF_SKIP_MC=1 skips them when the same
     # specification is checked against many trees in a row)
     for cfg in ([] if os.environ.get("VERIF_SKIP_MC") else
-                ctx.pick(["MCq", "MCverq", "MCbucketq"], ["MC", "MCver", "MCbucket", "MCrestart", "MC2workers", "MC4ops", "MC2keys"])):
+                ctx.pick(["MCq", "MCverq", "MCbucketq", "MCmpuq"], ["MC", "MCver", "MCbucket", "MCmpu", "MCrestart", "MC2workers", "MC4ops", "MC2keys"])):
         ctx.mc("StorageOutbox", "StorageOutbox.%s.cfg" % cfg, workers=ctx.pick(4, 8), timeout=3000)
     open_tags = [t for t in (TAG_SYNC, TAG_VER) if t in ctx.open_tags()]
     if ctx.tier == "thorough":
@@ -158,27 +188,14 @@ def run(ctx):
     # (c) every read the outbox wraps, started while a write of the same bucket is queued: all interleavings of
     #     (queued put / delete, read) pairs; per read operation a few schedules in which the read's drain snapshot
     #     is taken while the entry is pending
-    rd, _ = gen_pairs(ctx, ["PutObject", "DeleteObject"] + READ_OPS, 1, 0,
+    rd, _ = gen_pairs(ctx, ["PutObject", "DeleteObject"] + READ_OPS + OPAQUE_OPS, 1, 0,
                       extra={"PairMode": '"write-read"', "Blobs": '{"c2"}', "MaxFailPolls": "1"})
     per = {}
     for p in rd:
-        st = p["steps"]
-        reader = [x["p"] for x in st if x["a"] == "Invoke" and x["call"]["op"] in READ_OPS]
-        if not reader:
-            continue
-        rdr, rop = reader[-1], [x["call"]["op"] for x in st if x["a"] == "Invoke" and x["call"]["op"] in READ_OPS][-1]
-        pend, hit = 0, False
-        for x in st[11:]:
-            if x["a"] == "Enqueue":
-                pend += 1
-            elif x["a"] == "Finalize":
-                pend -= 1
-            elif x["a"] == "DrainStart" and x["p"] == rdr and pend > 0:
-                hit = True
-        if hit:
-            per.setdefault(rop, []).append(p)
+        for k in started_with_pending(p, lambda c: c["op"] if c["op"] in READ_OPS + OPAQUE_OPS else None):
+            per.setdefault(k, []).append(p)
     nper = ctx.pick(2, 12)
-    for rop in READ_OPS:
+    for rop in READ_OPS + OPAQUE_OPS:
         cands = per.get(rop, [])
         if not cands:
             raise vlib.Infra("no generated schedule starts %s while an entry of its bucket is queued" % rop)
@@ -186,6 +203,32 @@ def run(ctx):
         for p in cands[:nper]:
             p["kind"] = "reads"
             scheds.append(p)
+    # (c') every write-through call on a key (multipart create / part / complete with and without condition / abort,
+    #      tagging, transition, append, conditional put / delete) started while a put / delete of that key is queued;
+    #      prefix: bucket, object and a pending multipart upload of the key with one part
+    sy, _ = gen_pairs(ctx, ["PutObject", "DeleteObject"] + SYNC_OPS, 1, 0,
+                      extra={"PairMode": '"write-sync"', "Prefix": '"upload"', "MaxFailPolls": "1"})
+    per = {}
+    for p in sy:
+        for k in started_with_pending(p, lambda c: call_key(c) if call_key(c) in SYNC_KEYS else None):
+            per.setdefault((k, p["bad"]), []).append(p)
+    for k in SYNC_KEYS:
+        good, badk = per.get((k, False), []), per.get((k, True), [])
+        if not good and not badk:
+            raise vlib.Infra("no generated schedule starts %s while a write of its key is queued" % k)
+        rng.shuffle(good)
+        rng.shuffle(badk)
+        n = ctx.pick(2 if k.startswith("CompleteUpload") else 1, 10)
+        for p in good[:n] + badk[:ctx.pick(1, 6)]:
+            p["kind"] = "sync"
+            scheds.append(p)
+    # ... and the known race with a multipart complete as the write-through call (the put is queued AFTER the
+    # complete's drain check): the model of the code predicts the outcome, CondSound / Converges report it
+    mb = [p for p in sy if p["bad"] and any(x["a"] == "Invoke" and x["call"]["op"] == "CompleteUpload" for x in p["steps"])]
+    rng.shuffle(mb)
+    for p in mb[:ctx.pick(3, 40)]:
+        p["kind"] = "sync"
+        scheds.append(p)
     # (d) two claim owners (a second outbox instance on the same database and outbox id): the oldest entry is held
     #     by one worker while the other one runs a pass with a younger entry queued
     tw, _ = gen_pairs(ctx, ["PutObject", "DeleteObject"], 1, 0,
@@ -349,32 +392,38 @@ def run(ctx):
                 active.discard(ln["p"])
     # coverage gate: every read the outbox wraps took its drain snapshot at least once while an entry of the same
     # bucket was queued, and a worker ran a pass against a head entry held by the other claim owner
-    pending_reads, held_pass = {}, 0
+    pending_reads, pending_sync, held_pass = {}, {}, 0
     for pr in progs:
         pend, cur = {}, {}
         for i, ln in enumerate(pr):
             ev = ln["ev"]
             if ev == "Invoke":
-                cur[ln["p"]] = ln["call"]["op"]
+                cur[ln["p"]] = ln["call"]
             elif ev == "Enqueue":
-                pend[ln["eseq"]] = ln["b"]
+                pend[ln["eseq"]] = (ln["b"], ln["k"])
             elif ev == "Finalize" and ln.get("deleted"):
                 pend.pop(ln["eseq"], None)
-            elif ev == "DrainStart" and cur.get(ln["p"]) in READ_OPS:
-                if any(ln["scope"] == "global" or b == ln["b"] for b in pend.values()):
-                    pending_reads[cur[ln["p"]]] = pending_reads.get(cur[ln["p"]], 0) + 1
+            elif ev == "DrainStart" and ln["p"] in cur:
+                call = cur[ln["p"]]
+                if call["op"] in READ_OPS + OPAQUE_OPS:
+                    if any(ln["scope"] == "global" or b == call["b"] for (b, k) in pend.values()):
+                        pending_reads[call["op"]] = pending_reads.get(call["op"], 0) + 1
+                elif call_key(call) in SYNC_KEYS:
+                    if any(b == call["b"] and k == call["k"] for (b, k) in pend.values()):
+                        pending_sync[call_key(call)] = pending_sync.get(call_key(call), 0) + 1
             elif ev == "Claim" and not ln["claimed"] and len(pend) >= 2:
                 held_pass += 1
     ctx.extra["reads_started_with_pending_entry"] = pending_reads
+    ctx.extra["write_through_calls_started_with_queued_write_of_their_key"] = pending_sync
     ctx.extra["passes_against_held_head"] = held_pass
     if not ctx.violations:
-        lacking = [o for o in READ_OPS if not pending_reads.get(o)]
+        lacking = [o for o in READ_OPS + OPAQUE_OPS if not pending_reads.get(o)] + [k for k in SYNC_KEYS if not pending_sync.get(k)]
         if lacking:
-            raise vlib.Infra("reads never started on the real code while an entry of their bucket was queued: %s" % lacking)
+            raise vlib.Infra("calls never started on the real code while an entry of their bucket / key was queued: %s" % lacking)
         if not held_pass:
             raise vlib.Infra("no worker pass against a held head entry was executed on the real code")
     ctx.extra["events_by_kind"] = evs
-    ctx.extra["schedules_by_kind"] = {k: sum(1 for p in scheds if p["kind"] == k) for k in ("pairs", "witness", "reads", "workers", "walk1", "walk3")}
+    ctx.extra["schedules_by_kind"] = {k: sum(1 for p in scheds if p["kind"] == k) for k in ("pairs", "witness", "reads", "sync", "workers", "walk1", "walk3")}
     ctx.extra["schedules_by_kind"]["free"] = nfree
     ctx.extra["schedules_with_a_real_wait"] = len(waited)
     ctx.extra["schedules_with_concurrent_calls"] = len(concurrent)
